@@ -87,39 +87,51 @@ pub fn fnv64(data: &[u8]) -> u64 {
 }
 
 /// All strings over `alphabet` (each symbol an arbitrary &str) of length 0..=n, in length-then-lexicographic
-/// order, restricted to those whose first-symbol index is in `shard` (index % nshards == shard; the empty string
-/// belongs to shard 0). Calls `f(text, symbol_count)`.
+/// order within a shard. Strings are assigned to shards by their first two symbols
+/// ((i0 * |alphabet| + i1) % nshards; shorter strings by what they have; the empty string belongs to shard 0).
+/// Calls `f(text, symbol_count)`.
 pub fn for_each_string(alphabet: &[&str], n: usize, shard: usize, nshards: usize, f: &mut dyn FnMut(&str, usize)) {
+    let k = alphabet.len();
     let mut buf = String::new();
     if shard == 0 {
         f("", 0);
     }
-    for len in 1..=n {
-        let mut idx = vec![0usize; len];
-        'outer: loop {
-            if idx[0] % nshards == shard {
-                buf.clear();
-                for &i in &idx {
-                    buf.push_str(alphabet[i]);
-                }
-                f(&buf, len);
-            } else {
-                // skip the whole block below this first symbol
-                for k in 1..len {
-                    idx[k] = alphabet.len() - 1;
-                }
+    if n >= 1 {
+        for i0 in 0..k {
+            if (i0 * k) % nshards == shard {
+                f(alphabet[i0], 1);
             }
-            let mut k = len;
-            loop {
-                if k == 0 {
-                    break 'outer;
+        }
+    }
+    for len in 2..=n {
+        for i0 in 0..k {
+            for i1 in 0..k {
+                if (i0 * k + i1) % nshards != shard {
+                    continue;
                 }
-                k -= 1;
-                idx[k] += 1;
-                if idx[k] < alphabet.len() {
-                    break;
+                let rest = len - 2;
+                let mut idx = vec![0usize; rest];
+                'outer: loop {
+                    buf.clear();
+                    buf.push_str(alphabet[i0]);
+                    buf.push_str(alphabet[i1]);
+                    for &i in &idx {
+                        buf.push_str(alphabet[i]);
+                    }
+                    f(&buf, len);
+                    let mut p = rest;
+                    loop {
+                        if p == 0 {
+                            break 'outer;
+                        }
+                        p -= 1;
+                        idx[p] += 1;
+                        if idx[p] < k {
+                            break;
+                        }
+                        idx[p] = 0;
+                    }
                 }
-                idx[k] = 0;
             }
         }
     }
